@@ -140,6 +140,16 @@ def gen_case(rnd, idx, forced_ctx=None, forced_root=None, n=None):
                 head = src[:src.index("pub struct %s {" % names[i])]
                 src = head + {"unit": "pub struct %s;\n\n", "empty": "pub struct %s {}\n\n",
                               "all-skipped": "pub struct %s {\n    #[serde(skip)]\n    pub cache: i32,\n    #[serde(skip)]\n    pub other: String,\n}\n\n"}[form] % names[i]
+        if kinds[i] != "tuple" and (idx + i) % 7 == 3:
+            # a definition with generic parameters that are not types (a defaulted const parameter, a lifetime): the tool spells
+            # Frame<4> / Snapshot<'static> as Frame / Snapshot, and a bare `Frame` names the type as well — a type like any other
+            gp = ["<const N: usize = 4>", "<'a>", "<'a, const WIDE: bool = false>"][(idx // 7 + i) % 3]
+            kw = "pub enum %s {" if kinds[i] == "enum" else "pub struct %s {"
+            for tail in (" {", ";"):
+                head_ = (kw[:-2] % names[i]) + tail
+                if head_ in src:
+                    src = src.replace(head_, (kw[:-2] % names[i]) + gp + tail, 1)
+                    break
         if inline_mods and i % 2 == 1:
             # the definition sits in an inline module of its file (pub mod models { .. }): still defined by that file
             gate = ["", "", "#[cfg(not(test))]\n", "#[cfg(any(test, feature = \"fixtures\"))]\n", "#[cfg(feature = \"models\")]\n", "#[cfg(all(not(test), debug_assertions))]\n",
